@@ -603,7 +603,7 @@ class Rewriter:
             if t.kind == "comment":
                 gap_comment = True
                 continue
-            adjacent = prev is not None and not gap_ws and not gap_comment
+            adjacent = prev is not None and not gap_ws      # (a comment is no token: `./**/name` IS the class selector `.name`)
             first_index = len(out)
             is_class = t.kind == "ident" and adjacent and prev.kind == "delim" and prev.val == "."
             if is_class:
@@ -663,7 +663,7 @@ class Rewriter:
             if t.kind == "comment":
                 gap_comment = True
                 continue
-            adjacent = prev is not None and not gap_ws and not gap_comment
+            adjacent = prev is not None and not gap_ws      # (a comment is no token: `./**/name` IS the class selector `.name`)
             if t.kind == "dim" and t.unit == "rpx":
                 e = self.copy(t, vctx, "rpx")
             elif t.kind in BLOCKS:
